@@ -19,9 +19,14 @@ ArgShapes == {"none", "i64", "cstruct", "ref", "mutref", "slice", "mutslice", "s
               "opt", "optnpo", "optptr", "optmut", "slice64", "mutslice64", "slicezst", "optstruct", "rawptr", "result", "into", "callback", "iter",
               \* the same documented shapes over an (unwrapped) associated type of the trait, `type Item;`: the vtable is
               \* generic over it (parameter CGlueAItem) and the shape around it is wrapped like any other
-              "aval", "aref", "aslice", "aopt", "ares"}
+              "aval", "aref", "aslice", "aopt", "ares",
+              \* Option / Result written as a path: `::core::option::Option<u64>`, `std::option::Option<u64>`,
+              \* `::core::result::Result<u64, u64>` - the same types as "opt" / "result", so the same C side
+              "optabs", "optstd", "resabs"}
 RetShapes == {"unit", "i64", "cstruct", "slice", "mutslice", "str", "opt", "optnpo", "optptr", "refret", "mutrefret", "optstruct",
-              "result", "resunit", "resneg", "resio"}
+              "result", "resunit", "resneg", "resio",
+              \* `::core::option::Option<u64>`, `::std::result::Result<u64, ()>`
+              "optabs", "resabs"}
 
 (* C-side type of each shape (as documented; `as implemented` where the README is silent) *)
 CRecv(r) == CASE r = "ref" -> "&CGlueC" [] r = "mut" -> "&mutCGlueC" [] r = "own" -> "CGlueC"
@@ -30,12 +35,12 @@ CArg(a) ==
   CASE a = "none" -> <<>> [] a = "i64" -> <<"i64">> [] a = "cstruct" -> <<"Pt">>
     [] a = "ref" -> <<"&u64">> [] a = "mutref" -> <<"&mutu64">>
     [] a = "slice" -> <<"CSliceRef<u8>">> [] a = "mutslice" -> <<"CSliceMut<u8>">> [] a = "str" -> <<"CSliceRef<u8>">>
-    [] a = "opt" -> <<"COption<u64>">> [] a = "optnpo" -> <<"Option<&u64>">>
+    [] a \in {"opt", "optabs", "optstd"} -> <<"COption<u64>">> [] a = "optnpo" -> <<"Option<&u64>">>
     \* a raw pointer has no niche: Option<*const T> is not null-pointer-optimised and must be wrapped
     [] a = "optptr" -> <<"COption<*constu8>">>
     [] a = "optmut" -> <<"Option<&mutu64>">> [] a = "slice64" -> <<"CSliceRef<u64>">> [] a = "mutslice64" -> <<"CSliceMut<u64>">> [] a = "slicezst" -> <<"CSliceRef<()>">>
     [] a = "optstruct" -> <<"COption<Pt>">> [] a = "rawptr" -> <<"*constu8">>
-    [] a = "result" -> <<"CResult<u64,u64>">> [] a = "into" -> <<"u64">>
+    [] a \in {"result", "resabs"} -> <<"CResult<u64,u64>">> [] a = "into" -> <<"u64">>
     [] a = "aval" -> <<"CGlueAItem">> [] a = "aref" -> <<"&CGlueAItem">> [] a = "aslice" -> <<"CSliceRef<CGlueAItem>">>
     [] a = "aopt" -> <<"COption<CGlueAItem>">> [] a = "ares" -> <<"CResult<CGlueAItem,u64>">>
     [] a = "callback" -> <<"OpaqueCallback<u64>">> [] OTHER -> <<"CIterator<u64>">>
@@ -45,11 +50,11 @@ CRet(t, ir) ==
     [] t = "cstruct" -> [ret |-> "Pt", out |-> <<>>]
     [] t = "slice" -> [ret |-> "CSliceRef<u8>", out |-> <<>>] [] t = "mutslice" -> [ret |-> "CSliceMut<u8>", out |-> <<>>]
     [] t = "str" -> [ret |-> "CSliceRef<u8>", out |-> <<>>]
-    [] t = "opt" -> [ret |-> "COption<u64>", out |-> <<>>] [] t = "optnpo" -> [ret |-> "Option<&u64>", out |-> <<>>]
+    [] t \in {"opt", "optabs"} -> [ret |-> "COption<u64>", out |-> <<>>] [] t = "optnpo" -> [ret |-> "Option<&u64>", out |-> <<>>]
     [] t = "optptr" -> [ret |-> "COption<*constu8>", out |-> <<>>]
     [] t = "refret" -> [ret |-> "&u64", out |-> <<>>] [] t = "mutrefret" -> [ret |-> "&mutu64", out |-> <<>>]
     [] t = "optstruct" -> [ret |-> "COption<Pt>", out |-> <<>>]
-    [] t = "result" -> IF ir THEN [ret |-> "i32", out |-> <<"&mutMaybeUninit<u64>">>] ELSE [ret |-> "CResult<u64,()>", out |-> <<>>]
+    [] t \in {"result", "resabs"} -> IF ir THEN [ret |-> "i32", out |-> <<"&mutMaybeUninit<u64>">>] ELSE [ret |-> "CResult<u64,()>", out |-> <<>>]
     [] t = "resunit" -> IF ir THEN [ret |-> "i32", out |-> <<>>] ELSE [ret |-> "CResult<(),()>", out |-> <<>>]
     \* std::io::Error (not C-representable itself: only as an integer code) with a negative raw OS code
     [] t = "resio" -> [ret |-> "i32", out |-> <<"&mutMaybeUninit<u64>">>]
@@ -78,7 +83,7 @@ Supported(r, a, t) ==
 Defs == {[recv |-> r, arg |-> a, ret |-> t, ir |-> ir] :
            r \in Recvs, a \in ArgShapes, t \in RetShapes, ir \in BOOLEAN}
 Valid(d) == /\ Supported(d.recv, d.arg, d.ret)
-            /\ (d.ir => d.ret \in {"result", "resunit", "resneg", "resio"})
+            /\ (d.ir => d.ret \in {"result", "resunit", "resneg", "resio", "resabs"})
             /\ (d.ret = "resio" => d.ir)
 
 CSig(d) == [params |-> <<CRecv(d.recv)>> \o CArg(d.arg) \o CRet(d.ret, d.ir).out, ret |-> CRet(d.ret, d.ir).ret]
